@@ -32,11 +32,11 @@ var spCallees = map[string]bool{
 // the given import path. Files whose base name is in skip are left out.
 func (P *Program) InstrumentPackage(pkgPath string, skip map[string]bool) (map[string][]byte, error) {
 	var pkg *packages.Package
-	for _, p := range P.Initial {
-		if p.PkgPath == pkgPath {
+	packages.Visit(P.Initial, nil, func(p *packages.Package) {
+		if p.PkgPath == pkgPath && len(p.Syntax) > 0 {
 			pkg = p
 		}
-	}
+	})
 	if pkg == nil {
 		return nil, nil
 	}
@@ -297,4 +297,43 @@ func (ins *instrumenter) goStmt(g *ast.GoStmt) ast.Stmt {
 		Body: &ast.BlockStmt{List: []ast.Stmt{enter, &ast.ExprStmt{X: g.Call}}},
 	}}}
 	return &ast.BlockStmt{List: []ast.Stmt{idDecl, wrapped}}
+}
+
+// HookFile is the source overlaid into a further instrumented package (spec "instr_pkgs"): the
+// scheduling-point functions there forward to the shim of the package under test, which installs
+// itself through the exported variables before the entry runs.
+func HookFile(pkgName string) []byte {
+	return []byte("package " + pkgName + `
+
+var VerifSPHook func()
+var VerifSpawnHook func() int
+var VerifEnterHook func(int)
+
+func verifSP() {
+	if VerifSPHook != nil {
+		VerifSPHook()
+	}
+}
+func verifSpawn() int {
+	if VerifSpawnHook != nil {
+		return VerifSpawnHook()
+	}
+	return 0
+}
+func verifEnter(id int) {
+	if VerifEnterHook != nil {
+		VerifEnterHook(id)
+	}
+}
+`)
+}
+
+// PackageNameDir returns the name and directory of a loaded package.
+func (P *Program) PackageNameDir(pkgPath string) (name, dir string) {
+	packages.Visit(P.Initial, nil, func(p *packages.Package) {
+		if p.PkgPath == pkgPath && len(p.CompiledGoFiles) > 0 {
+			name, dir = p.Name, filepath.Dir(p.CompiledGoFiles[0])
+		}
+	})
+	return
 }
